@@ -48,6 +48,8 @@ def clone(node):
             setattr(new, a, getattr(node, a))
     if hasattr(node, "_module"):
         new._module = node._module
+    if getattr(node, "_inl", False):
+        new._inl = True
     return new
 
 
@@ -556,7 +558,12 @@ class Inliner:
         if body and isinstance(body[0], ast.Expr) and isinstance(body[0].value, ast.Constant) and isinstance(body[0].value.value, str):
             body = body[1:]
         sub = _Subst(mapping)
-        return _prune_constant_branches([sub.visit(st) for st in body])
+        body = _prune_constant_branches([sub.visit(st) for st in body])
+        for st in body:
+            for n in ast.walk(st):
+                if isinstance(n, ast.stmt):
+                    n._inl = True  # written by a helper, not by the function it now sits in
+        return body
 
     # ---------------------------------------------------------------- statement level
     def expand_block(self, stmts, module, cls, depth, stack):
@@ -587,6 +594,22 @@ class Inliner:
                 res = self.inline_generator_loop(st, h, module, cls, depth, stack)
                 if res is not None:
                     return res
+        # a loop over the rows a table-returning helper builds: `for a, b in _rows():` with `def _rows(): return ((..), (..))`
+        if isinstance(st, ast.For) and isinstance(st.iter, ast.Call) and not st.iter.args and not st.iter.keywords:
+            h = self.helper_for(st.iter, module, cls)
+            if h is not None and qualname_of(h[0]) not in stack:
+                hb = [x for x in h[0].body if not (isinstance(x, ast.Expr) and isinstance(x.value, ast.Constant))]
+                if len(hb) == 1 and isinstance(hb[0], ast.Return) and isinstance(hb[0].value, (ast.Tuple, ast.List)) and hb[0].value.elts \
+                        and all(isinstance(r, (ast.Tuple, ast.List)) for r in hb[0].value.elts):
+                    lit = clone(hb[0].value)
+                    lit._from_helper = True
+                    saved = st.iter
+                    st.iter = lit
+                    res = self.unroll_table_loop(st, module, cls)
+                    if res is not None:
+                        self.inlined_calls.append(f"{qualname_of(h[0])} <- table {ast.unparse(saved)[:50]}")
+                        return self.expand_block(res, module, cls, depth, stack)
+                    st.iter = saved
         # a loop over a constant table of rows (dispatch table): one copy of the body per row
         if isinstance(st, ast.For):
             res = self.unroll_table_loop(st, module, cls)
@@ -619,6 +642,12 @@ class Inliner:
     def _constant_table(self, expr, module, cls):
         """Rows of a class-level / module-level `NAME = ((a, b), (c, d), ...)` that is assigned exactly once; else None."""
         name, scope = None, None
+        if isinstance(expr, (ast.Tuple, ast.List)) and getattr(expr, "_from_helper", False):
+            # the literal table a table-returning helper was inlined to
+            rows = expr.elts
+            if rows and len(rows) <= 32 and all(isinstance(r, (ast.Tuple, ast.List)) for r in rows):
+                return rows, module.tree
+            return None
         if isinstance(expr, ast.Attribute) and isinstance(expr.value, ast.Name) and expr.value.id in ("self", "cls") and cls is not None:
             name, scope = expr.attr, cls
         elif isinstance(expr, ast.Attribute) and isinstance(expr.value, ast.Name) and cls is not None and expr.value.id == cls.name:
@@ -695,8 +724,8 @@ class Inliner:
                 nb.orelse = chain_else
                 chain_else = [nb]
             out = chain_else
-        self.inlined_calls.append(f"<table-loop> for {ast.unparse(loop.target)} in {ast.unparse(loop.iter)} unrolled over {len(rows)} rows")
-        return out
+        self.inlined_calls.append(f"<table-loop> for {ast.unparse(loop.target)} in {ast.unparse(loop.iter)[:60]} unrolled over {len(rows)} rows")
+        return _prune_constant_branches(out)
 
     def desugar_listcomp(self, st, module, cls, stack):
         comp = st.value
@@ -818,10 +847,47 @@ class Inliner:
         if not ok:
             return None
         caller_body = loop.body
+        # `yield CONST, GLOBAL, function`: the loop variables are names for these atoms - substituted into the copy of the body
+        # (no assignment is left behind), provided the body does not rebind them and nothing after the loop reads them
+        tnames = [t.id for t in loop.target.elts] if isinstance(loop.target, (ast.Tuple, ast.List)) and all(isinstance(t, ast.Name) for t in loop.target.elts) \
+            else ([loop.target.id] if isinstance(loop.target, ast.Name) else None)
+        helper_locals = {n.id for n in ast.walk(fn) if isinstance(n, ast.Name) and isinstance(n.ctx, (ast.Store, ast.Del))} | {a.arg for a in fn.args.args + fn.args.kwonlyargs}
+        direct = False
+        if tnames:
+            owner = loop
+            while owner is not None and not isinstance(owner, (ast.FunctionDef, ast.AsyncFunctionDef)):
+                owner = getattr(owner, "_parent", None)
+            inside = {id(n) for n in ast.walk(loop)}
+            stored_in_body = any(isinstance(n, ast.Name) and n.id in tnames and isinstance(n.ctx, (ast.Store, ast.Del)) for b0 in caller_body for n in ast.walk(b0))
+            used_outside = owner is None or any(isinstance(n, ast.Name) and n.id in tnames and id(n) not in inside for n in ast.walk(owner))
+            nested_scope = any(isinstance(n, (ast.FunctionDef, ast.Lambda, ast.AsyncFunctionDef, ast.ClassDef)) for b0 in caller_body for n in ast.walk(b0))
+            direct = not stored_in_body and not used_outside and not nested_scope
+
+        def atoms_of(v):
+            vals = v.elts if isinstance(v, (ast.Tuple, ast.List)) and isinstance(loop.target, (ast.Tuple, ast.List)) else [v]
+            if len(vals) != len(tnames) or any(isinstance(x, ast.Starred) for x in vals):
+                return None
+            for x in vals:
+                y = x
+                while isinstance(y, ast.Attribute):
+                    y = y.value
+                if isinstance(y, ast.Constant) and y is x:
+                    continue
+                if isinstance(y, ast.Name) and y.id not in helper_locals and y.id not in ("self", "cls"):
+                    continue
+                return None
+            return vals
 
         def replace(stmts, in_loop):
             out = []
             for s in stmts:
+                if direct and isinstance(s, ast.Expr) and isinstance(s.value, ast.Yield) and s.value.value is not None and atoms_of(s.value.value) is not None:
+                    sub = _Subst(dict(zip(tnames, atoms_of(s.value.value))))
+                    for b0 in caller_body:
+                        nb = sub.visit(clone(b0))
+                        ast.fix_missing_locations(nb)
+                        out.append(nb)
+                    continue
                 if isinstance(s, ast.Expr) and isinstance(s.value, ast.Yield):
                     asg = ast.Assign(targets=[clone(loop.target)], value=s.value.value if s.value.value is not None else ast.Constant(value=None))
                     ast.copy_location(asg, s)
